@@ -275,6 +275,55 @@ End Drive.
 Definition drive (file : list N) (fuel : nat) (m : mach) : list Rw * bool :=
   drive_with file (fun _ rs => rs) fuel O m.
 
+(* ------------------------------------------------------------------ the async stream
+   parquet/src/arrow/async_reader/mod.rs: ParquetRecordBatchStream = RequestState + the push decoder.
+   One [sstep] is one iteration of the `loop` in poll_next_inner:
+     None        -> try_decode; NeedsData(ranges) begins a request (get_byte_ranges(ranges), whose
+                    future will return Pending [delay] times), a batch / end of stream is returned
+     Outstanding -> poll the future: Pending is returned to the executor; when ready the fetched
+                    bytes are pushed under exactly the requested ranges
+     Done        -> end of stream
+   [SWork] marks the iterations after which the loop continues without returning to the executor. *)
+Inductive rq_state := QNone | QOutstanding (rs : list range) (delay : nat) | QDone.
+Record stream := { s_req : rq_state; s_dec : mach }.
+Inductive sout := SPending | SBatch (b : batch) | SEnd | SWork | SFail.
+
+Section Async.
+Variable file : list N.
+Definition sstep (delay : nat) (s : stream) : stream * sout :=
+  match s_req s with
+  | QNone =>
+      match try_decode (s_dec s) with
+      | (m', RNeed rs) => ({| s_req := QOutstanding rs delay; s_dec := m' |}, SWork)
+      | (m', RData b) => ({| s_req := QNone; s_dec := m' |}, SBatch b)
+      | (m', RFinished) => ({| s_req := QDone; s_dec := m' |}, SEnd)
+      | (m', _) => ({| s_req := QDone; s_dec := m' |}, SFail)
+      end
+  | QOutstanding rs (S d) => ({| s_req := QOutstanding rs d; s_dec := s_dec s |}, SPending)
+  | QOutstanding rs O =>
+      match push_data (s_dec s) rs (file_chunks file rs) with
+      | Some m' => ({| s_req := QNone; s_dec := m' |}, SWork)
+      | None => ({| s_req := QDone; s_dec := s_dec s |}, SFail)
+      end
+  | QDone => (s, SEnd)
+  end.
+
+(* the executor: polls until the stream ends; [delays] = how many times the i-th request's future
+   returns Pending before it is ready (0 once the list is exhausted) *)
+Fixpoint stream_collect (fuel : nat) (delays : list nat) (s : stream) : list Rw * bool :=
+  match fuel with
+  | O => ([], false)
+  | S f =>
+      match sstep (hd O delays) s with
+      | (s', SBatch b) => let '(rows, fin) := stream_collect f delays s' in (b ++ rows, fin)
+      | (_, SEnd) => ([], true)
+      | (_, SFail) => ([], false)
+      | (s', SPending) => stream_collect f delays s'
+      | (s', SWork) => stream_collect f (match s_req s with QNone => tl delays | _ => delays end) s'
+      end
+  end.
+End Async.
+
 End Machine.
 
 Arguments PNeed {Rw U}.
@@ -296,6 +345,11 @@ Arguments RGWait {Rw U}.
 Arguments DReading {Rw}.
 Arguments DDecoding {Rw}.
 Arguments DFinished {Rw}.
+Arguments SPending {Rw}.
+Arguments SBatch {Rw}.
+Arguments SEnd {Rw}.
+Arguments SWork {Rw}.
+Arguments SFail {Rw}.
 Arguments RNeed {Rw}.
 Arguments RData {Rw}.
 Arguments RReader {Rw}.
